@@ -272,9 +272,38 @@ fn faults_to_hook_cfg(plan: &Plan) -> rsdd::verif::Config {
     }
 }
 
-/// Execute one plan start-to-finish on this thread inside its own arena.
+/// Execute one plan start-to-finish inside its own arena and **on its own, fresh OS thread**.
 /// A pure function of the plan (and the code under test).
+///
+/// Why a thread per run: a run's memory is taken from an arena that is emptied when the run ends. Anything the code
+/// under test keeps in *thread-local* storage (a memo, a cache of primes, a counter) would otherwise survive on a
+/// re-used worker thread while the memory it points to is wiped and handed to the next run -- the harness, not the
+/// library, would then be breaking the rules, and a perfectly good thread-local cache would raise false alarms (or a
+/// bad one would go unnoticed behind garbage). With a fresh thread every run starts with pristine thread-local
+/// state, exactly like the first use of the library in a new process; its thread-local destructors run when the
+/// thread exits, while the arena is still intact, and only then is the slot released.
 pub fn execute_plan(world: &dyn World, plan: &Plan, trace: bool) -> Outcome {
+    execute_plan_with(world, plan, trace, &|| ())
+}
+
+/// `on_start` is called on the run's thread before anything else (the supervisor's in-flight table uses it to learn
+/// which thread's CPU clock measures this run).
+pub fn execute_plan_with(world: &dyn World, plan: &Plan, trace: bool, on_start: &dyn Fn()) -> Outcome {
+    let (mut out, detached) = crate::fresh::on_fresh_thread(|| {
+        crate::runner::warm_up();
+        on_start();
+        execute_plan_here(world, plan, trace)
+    });
+    // the run's thread has exited (its thread-local destructors have run): now the arena may be emptied
+    if let Some(d) = detached {
+        let st = alloc::release(d);
+        out.stats.arena_bytes = st.bytes;
+        out.stats.allocs = st.allocs;
+    }
+    out
+}
+
+fn execute_plan_here(world: &dyn World, plan: &Plan, trace: bool) -> (Outcome, Option<alloc::Detached>) {
     let big = plan.get_or("arena", 1) == 2;
     let slot = (plan.seed % if big { alloc::NUM_BIG_SLOTS } else { alloc::NUM_SLOTS } as u64) as usize;
     let use_arena = plan.get_or("arena", 1) != 0 && !cfg!(miri);
@@ -367,14 +396,10 @@ pub fn execute_plan(world: &dyn World, plan: &Plan, trace: bool) -> Outcome {
     };
     IN_RUN.set(false);
     // deep copy into memory that outlives the arena
-    let mut out = alloc::with_system(|| out_arena.clone());
+    let out = alloc::with_system(|| out_arena.clone());
     std::mem::forget(out_arena);
-    if use_arena {
-        let st = alloc::disarm_sized(slot, big);
-        out.stats.arena_bytes = st.bytes;
-        out.stats.allocs = st.allocs;
-    }
-    out
+    let detached = if use_arena { Some(alloc::detach_sized(slot, big)) } else { None };
+    (out, detached)
 }
 
 /// does this panic location lie in the harness (rather than in rsdd)? Harness panics are harness errors
